@@ -31,6 +31,10 @@ func oracleVariant() Variant {
 	}}
 }
 
+// QueueVariant / OracleVariant expose the two explorations for reuse by the cross-cutting checks (C13).
+func QueueVariant() Variant  { return queueVariant() }
+func OracleVariant() Variant { return oracleVariant() }
+
 // withStats adds the coverage counters of the variant to the part's evidence bounds.
 func withStats(p mc.Part, v Variant, alphabet string) mc.Part {
 	run := p.Run
